@@ -18,22 +18,26 @@ Oracle (history, exact rational arithmetic on the recorded floats):
   admitted).  DELTA = 2 microseconds >> the few ulps (2.4e-7 s at 1.7e9) by which correct code may
   wake late because ``now + delay`` and ``now - W`` are rounded.
 * spin - the virtual clock only advances when nothing is runnable.  If the loop exceeds its step
-  budget, some entry re-evaluates with a non-positive delay at a frozen instant tau; when
-  occ(tau) < count in exact arithmetic it could have been admitted at tau and never is.  (With
-  timers firing exactly - see below - correct code cannot spin: it either admits or sleeps a
-  positive time.)
+  budget (20x what correct code needs) and the clock has not moved for the last 1000 iterations,
+  some entry re-evaluates with a non-positive delay at a frozen instant tau; when occ(tau) < count
+  in exact arithmetic it could have been admitted at tau and never is.  (With timers firing
+  exactly - see below - correct code cannot spin: it either admits or sleeps a positive time.)
+  Entries still not admitted when the budget runs out are judged by the work-conservation rule
+  over [r, end of observation).
 
 Clock: realistic ``time.time()`` magnitudes only (1.6e9..1.9e9, ulp 2.4e-7); tiny clock values would
 let ``now + delay == now`` freeze a *correct* limiter under a clock that never moves by itself.
 ``loop._clock_resolution`` is lowered from the virtual loop's 1e-6 to one ulp inside this monitor:
 with 1e-6 timers fire up to a microsecond early *without* the clock moving, and two waiters whose
-remaining delay is below that can wake each other's timers alternately for ever (an artefact of the
-frozen clock, not of the limiter).
+remaining delay is below that could in principle wake each other's timers alternately for ever (an
+artefact of the frozen clock, not of the limiter; precautionary - 3000 cases with the default 1e-6
+showed neither a livelock nor a different verdict).
 
 Workload: count 1-5, windows including non-representable ones, bursts, steady arrivals, arrivals at
 exact multiples of the window after an earlier arrival (expiry instants), grid arrivals.
 """
 import asyncio
+import bisect
 import collections
 import math
 from fractions import Fraction
@@ -72,6 +76,8 @@ def FLOORS(tier):
 
 
 DELTA = Fraction(2, 1_000_000)
+MAX_STEPS = 3000  # correct code needs < 150 loop iterations for the largest case
+SPIN_STEPS = 1000
 WINDOWS = [0.001, 0.1, 0.25, 0.3, 1 / 3, 0.5, 0.7, 1.0, 1.1, 2.5, 3.0, 60.0]
 
 
@@ -105,73 +111,97 @@ def gen(rng):
     return {'count': count, 'window': window, 'start': start, 'offsets': offsets}
 
 
-def occupancy(adm, w, tau):
-    return sum(1 for t in adm if tau - w < t <= tau)
+SCALE = 2**90  # every float used here (clock values ~1.7e9, windows >= 1e-3, ulps) is an integer multiple of 2**-90
 
 
-def check_history(case, req, adm_by_entry, stats):
-    """returns (key, what, detail) or None"""
+def to_i(x):
+    """exact integer representation of a float in units of 2**-90 s"""
+    fr = Fraction(x) * SCALE
+    if fr.denominator != 1:
+        raise ValueError(f'{x!r} is not a multiple of 2**-90')
+    return fr.numerator
+
+
+DELTA_I = int(DELTA * SCALE)
+
+
+def occupancy(adm_sorted, w, tau):
+    """#{t in adm : tau - w < t <= tau}; adm_sorted ascending (exact integers)"""
+    return bisect.bisect_right(adm_sorted, tau) - bisect.bisect_right(adm_sorted, tau - w)
+
+
+def check_history(case, req, adm_by_entry, stats, t_end=None):
+    """returns (key, what, detail) or None.  All arithmetic exact (integers in units of 2**-90 s)."""
     count = case['count']
-    W = Fraction(case['window'])
+    W = to_i(case['window'])
+    S = to_i(case['start'])
     entries = sorted(adm_by_entry)
     adm_f = sorted(adm_by_entry[i] for i in entries)
-    adm = [Fraction(t) for t in adm_f]
+    adm = [to_i(t) for t in adm_f]
+
+    def rel(x):
+        return float(Fraction(x - S, SCALE))
+
     # ---- rate ---------------------------------------------------------------------------
     for i in range(len(adm) - count):
         stats['rate_pairs_checked'] += 1
         diff = adm[i + count] - adm[i]
         if diff == W:
             stats['rate_pairs_at_exact_window'] += 1
-        eps = Fraction(math.ulp(adm_f[i + count]))
+        eps = to_i(math.ulp(adm_f[i + count]))
         if diff < W:
             stats['rate_pairs_short_within_tolerance'] += 1
-            stats['max_rate_shortfall_in_1000th_ulp'] = max(stats['max_rate_shortfall_in_1000th_ulp'], int((W - diff) / eps * 1000))
+            stats['max_rate_shortfall_in_1000th_ulp'] = max(stats['max_rate_shortfall_in_1000th_ulp'], (W - diff) * 1000 // eps)
         if diff < W - eps:
             return (
                 'rate/window-exceeded',
-                f'{count + 1} admissions within {float(diff)!r} s < window {case["window"]!r} (count={count}): admissions #{i}..#{i + count} of the sorted history',
-                {'t_i': adm_f[i] - case['start'], 't_i_plus_count': adm_f[i + count] - case['start'], 'short_by_s': float(W - diff)},
+                f'{count + 1} admissions within {float(Fraction(diff, SCALE))!r} s < window {case["window"]!r} (count={count}): admissions #{i}..#{i + count} of the sorted history',
+                {'t_i': rel(adm[i]), 't_i_plus_count': rel(adm[i + count]), 'short_by_s': float(Fraction(W - diff, SCALE))},
             )
     # ---- work conservation ------------------------------------------------------------------
     points = sorted(set(adm) | {t + W for t in adm})
-    for e in entries:
-        r, a = Fraction(req[e]), Fraction(adm_by_entry[e])
+    pending = [e for e in sorted(req) if e not in adm_by_entry] if t_end is not None else []
+    for e in entries + pending:
+        # an entry that was never admitted is judged over [r, end of observation)
+        r, a = to_i(req[e]), to_i(adm_by_entry[e] if e in adm_by_entry else t_end)
         if a <= r:
             continue
         stats['waiting_intervals_checked'] += 1
-        bps = [r] + [p for p in points if r < p < a] + [a]
+        bps = [r] + points[bisect.bisect_right(points, r):bisect.bisect_left(points, a)] + [a]
         run_start = None
         for p, q in zip(bps, bps[1:]):
             if occupancy(adm, W, p) < count:
                 if run_start is None:
                     run_start = p
-                if q - run_start > DELTA:
+                if q - run_start > DELTA_I:
                     return (
                         'work-conservation/late-admission',
-                        f'entry {e} requested at +{float(r - Fraction(case["start"])):.9g} was admitted at +{float(a - Fraction(case["start"])):.9g} although fewer than '
-                        f'{count} admissions lay in the window from +{float(run_start - Fraction(case["start"])):.9g} on ({float(q - run_start):.6g} s of admissible time unused)',
-                        {'entry': e, 'admissible_from': float(run_start - Fraction(case['start'])), 'admitted_at': float(a - Fraction(case['start']))},
+                        f'entry {e} requested at +{rel(r):.9g} was {"admitted at" if e in adm_by_entry else "still not admitted at"} +{rel(a):.9g} although fewer than {count} admissions lay in the '
+                        f'window from +{rel(run_start):.9g} on ({float(Fraction(q - run_start, SCALE)):.6g} s of admissible time unused)',
+                        {'entry': e, 'admissible_from': rel(run_start), 'admitted_at': rel(a)},
                     )
             else:
                 if run_start is not None and p > run_start:
                     stats['late_within_tolerance'] += 1
-                    stats['max_lateness_ns'] = max(stats['max_lateness_ns'], int((p - run_start) * 10**9))
+                    stats['max_lateness_ns'] = max(stats['max_lateness_ns'], (p - run_start) * 10**9 // SCALE)
                 run_start = None
         if run_start is not None and a > run_start:
             stats['late_within_tolerance'] += 1
-            stats['max_lateness_ns'] = max(stats['max_lateness_ns'], int((a - run_start) * 10**9))
+            stats['max_lateness_ns'] = max(stats['max_lateness_ns'], (a - run_start) * 10**9 // SCALE)
     return None
 
 
-def execute(case, rl_mod, run_virtual, Deadlock, StepLimit):
+def execute(case, rl_mod, run_virtual, on_quiescent, Deadlock, StepLimit):
     req = {}
     adm = {}
     order = []
     loops = []
+    last_jump = [0]
     stats = collections.Counter()
 
     async def main(loop):
         loop._clock_resolution = math.ulp(loop.time())  # timers fire exactly, never early (see module docstring)
+        on_quiescent(loop, lambda: last_jump.__setitem__(0, loop.steps))
         rl_mod.time = loop.time_module()
         limiter = rl_mod.RateLimiter(rl_mod.RateLimit(case['count'], case['window']))
 
@@ -188,26 +218,29 @@ def execute(case, rl_mod, run_virtual, Deadlock, StepLimit):
     outcome = 'completed'
     saved = rl_mod.time
     try:
-        run_virtual(main, start=case['start'], max_steps=20_000, loop_out=loops)
+        run_virtual(main, start=case['start'], max_steps=MAX_STEPS, loop_out=loops)
     except Deadlock:
         outcome = 'deadlock'
     except StepLimit:
         outcome = 'steplimit'
     finally:
         rl_mod.time = saved
-    return req, adm, order, outcome, loops[0].time(), stats
+    # busy-wait = the step budget ran out and the clock has not moved for SPIN_STEPS loop iterations
+    spinning = outcome == 'steplimit' and loops[0].steps - last_jump[0] >= SPIN_STEPS
+    return req, adm, order, outcome, loops[0].time(), stats, spinning
 
 
 def run(ctx):
     import hailtop.utils.rate_limiter as rl_mod
 
+    from vf.sim.quiesce import on_quiescent
     from vf.sim.vloop import Deadlock, StepLimit, run_virtual
 
     N = ctx.pick(3_000, 18_750)
     maxima = collections.Counter()
     for i, rng in ctx.cases(N):
         case = gen(rng)
-        req, adm, order, outcome, t_end, stats = execute(case, rl_mod, run_virtual, Deadlock, StepLimit)
+        req, adm, order, outcome, t_end, stats, spinning = execute(case, rl_mod, run_virtual, on_quiescent, Deadlock, StepLimit)
         start = case['start']
         waited = [e for e in adm if adm[e] > req[e]]
         ctx.count('admissions', len(adm))
@@ -217,15 +250,15 @@ def run(ctx):
         ctx.seen('count', case['count'])
         ctx.seen('window', repr(case['window']))
         # observation counters: arrivals exactly at an expiry instant; instants at which >= 2 waiters were due
-        W = Fraction(case['window'])
-        adm_set = {Fraction(t) for t in adm.values()}
+        W = to_i(case['window'])
+        adm_set = {to_i(t) for t in adm.values()}
         for e, r in req.items():
-            if Fraction(r) - W in adm_set:
+            if to_i(r) - W in adm_set:
                 ctx.count('arrivals_exactly_at_expiry')
         for t in {adm[e] for e in waited}:
             if sum(1 for e in waited if req[e] < t <= adm[e]) >= 2:
                 ctx.count('instants_with_two_or_more_waiters_waking')
-        bad = check_history(case, req, adm, stats)
+        bad = check_history(case, req, adm, stats, t_end if outcome != 'completed' else None)
         for k, v in stats.items():
             if k.startswith('max_'):
                 maxima[k] = max(maxima[k], v)
@@ -252,21 +285,38 @@ def run(ctx):
             ctx.violation('liveness/deadlock', f'{len(req) - len(adm)} entries blocked for ever with nothing scheduled', witness)
         elif outcome == 'steplimit':
             pending = [e for e in req if e not in adm]
-            occ = occupancy([Fraction(t) for t in adm.values()], W, Fraction(t_end))
+            occ = occupancy(sorted(to_i(t) for t in adm.values()), to_i(case['window']), to_i(t_end))
             witness['frozen_at_rel'] = t_end - start
             witness['occupancy_at_frozen_instant'] = occ
-            if pending and occ < case['count']:
+            witness['clock_frozen'] = spinning
+            if spinning and pending and occ < case['count']:
                 ctx.violation(
                     'work-conservation/spins-without-admitting',
                     f'at +{t_end - start:.9g} only {occ} < {case["count"]} admissions lie in the window, entries {pending} keep re-evaluating with a non-positive delay and are never admitted',
                     witness,
                 )
             else:
-                ctx.count('spin_unresolved')
-                if ctx.counters['spin_unresolved'] > 3:
-                    ctx.inconclusive_because('entries busy-wait at a frozen instant at which admission is not (yet) possible: cannot be decided on logical time')
+                ctx.count('step_budget_exhausted_undecided')
+                if ctx.counters['step_budget_exhausted_undecided'] > 3:
+                    ctx.inconclusive_because(
+                        'step budget exhausted without a decidable history (busy-wait at an instant at which admission is not possible, or a very long run)'
+                    )
     for k, v in maxima.items():
         ctx.seen(k, v)  # how close correct code comes to the tolerances (per shard maximum)
 
 
-# BREAKS-TRIED
+# ------------------------------------------------------------------------------------------------
+# Breaks tried in a scratch worktree of hail/python/hailtop/utils/rate_limiter.py (VERIF_REPO=/tmp/scratch-async,
+# quick tier, seed 0), one at a time; unchanged tree: exit 0 for seeds 0..4 quick and seed 0 thorough.
+# Closest approach of correct code to the tolerances (seed 0): rate shortfall 0.4 ulp (bound 0.5, tolerance 1),
+# lateness 47 ns (tolerance 2000 ns).
+#   B1 (DESIGN) eviction `<` for `<=`                                   -> caught  work-conservation/spins-without-admitting
+#      (only observable when `now - window == items[0]` exactly: the limiter then sleeps 0 for ever under a clock
+#       that does not move by itself; with a real clock it would busy-wait for one clock tick)
+#   B2 (DESIGN) sleep `window` instead of the remaining time             -> caught  work-conservation/late-admission
+#   B3 `len(items) <= count` (admits count+1)                            -> caught  rate/window-exceeded
+#   B4 no re-check after the sleep (pop oldest, append, return)          -> caught  rate/window-exceeded
+#      (needs two entries sleeping towards the same expiry instant)
+#   B5 sleep until the *newest* item expires                             -> caught  work-conservation/late-admission
+#   B6 eviction bound loosened by 1 microsecond (`now - window + 1e-6`)  -> caught  rate/window-exceeded (short by 7e-7 s)
+#   B7 `now = time.time()` hoisted out of the loop (stale clock)         -> caught  work-conservation/late-admission, rate/window-exceeded
